@@ -386,6 +386,27 @@ def no_output_on_refusal(ctx, ev):
             mod=ld.module, node=ld.node, function=ctx.fq(ld), expected="return dominated by the four checks", found=f"{len(lret)} returns")
 
 
+def _loads_own_dependency(ctx, ev0, ld_fi, call, d):
+    """The loader, wherever it lives and whatever it is handed: what it decodes, with the arguments of this call put in place of
+    its parameters, is the entry of this node's own envelope stored under the dependency's name."""
+    from sa.terms import substitute
+    rets = [o for o in ev0.outcomes(ld_fi) if o.kind == "return"]
+    names = ld_fi.params()
+    args = [a_ for a_ in call.args[1:] if not (isinstance(a_, App) and a_.op == "kw")]
+    mp = {P(n): a_ for n, a_ in zip(names, args)}
+    mp.update({P(a_.args[0].v): a_.args[1] for a_ in call.args[1:] if isinstance(a_, App) and a_.op == "kw"})
+    if len(rets) != 1 or len(mp) != len(names):
+        raise AnalysisError(f"{ctx.fq(ld_fi)}: loader call not recognised ({call!r})")
+    got = substitute(rets[0].value, mp)
+    if not (isinstance(got, App) and got.op == "cborload" and isinstance(got.args[0], App) and got.args[0].op == "idx"):
+        raise AnalysisError(f"{ctx.fq(ld_fi)}: the loader does not return a decoded entry of a mapping ({got!r})")
+    box, key = got.args[0].args
+    own = App("attr:value", (P("envelope"),))
+    boxes = (App("attr:value", (App("attr:envelope", (SELF,)),)), own, App("call:dict", (own,)),
+             App("attr:value", (App("tag", (App("attr:tag", (P("envelope"),)), App("call:dict", (own,)))),)))
+    return box in boxes and key == d
+
+
 def recursive_wiring(ctx, ev):
     R = ctx.report
     repo = ctx.repo
@@ -434,12 +455,18 @@ def recursive_wiring(ctx, ev):
         ld_fi = repo.func(CMD, "RecursiveSigner._load_dependency")
         want = {"envelope": [App("call", (Ref("func", ld_fi), SELF, d))], "envelope_json": cfgs, "envelope_name": [d], "sign_script": [A("sign_script")],
                 "kms_script": [A("kms_script")], "algorithm": [A("alg")], "context": [A("context")]}
+        # an attribute read back after it was stored is the stored value when no call on self intervenes
+        for nme, attr in (("sign_script", "sign_script"), ("kms_script", "kms_script"), ("algorithm", "alg"), ("context", "context")):
+            want[nme] += [o.heap[(SELF, attr)] for o in iouts if (SELF, attr) in o.heap]
         for nme in names:
             # the argument that reaches the parameter of this name (by position in the constructor's own parameter list, or by keyword)
             got = kws.get(nme)
             if got is None and nme in params and params.index(nme) < len(args):
                 got = args[params.index(nme)]
-            R.check("C09-D4 recursive wiring", got in want[nme], f"child parameter {nme}", mod=init.module, node=ctor.node or init.node, function=fq,
+            ok_ = got in want[nme]
+            if nme == "envelope" and not ok_ and isinstance(got, App) and got.op == "call" and got.args and got.args[0] == Ref("func", ld_fi):
+                ok_ = _loads_own_dependency(ctx, ev0, ld_fi, got, d)
+            R.check("C09-D4 recursive wiring", ok_, f"child parameter {nme}", mod=init.module, node=ctor.node or init.node, function=fq,
                     expected=repr(want[nme][0])[:160], found=repr(got)[:160], key_extra=nme)
     R.check("C09-D4 recursive wiring", params[:7] == names,
             "constructor parameter order", mod=init.module, node=init.node, function=fq, expected="(envelope, envelope_json, envelope_name, sign_script, kms_script, algorithm, context)",
